@@ -8,9 +8,14 @@ CONSTANTS Variant, MaxOps
 VARIABLES prog, held
 
 Variants == {"as_built", "default_aliased", "route_shared", "settings_shared", "settings_toggled", "settings_shared_toggled",
-             "registry_lazy", "typeinfos_unlocked", "pattern_cache_plain", "uricache_unlocked", "unique_nil", "writers_included"}
+             "registry_lazy", "typeinfos_unlocked", "pattern_cache_plain", "uricache_unlocked", "unique_lazy", "router_hint", "writers_included"}
+(* "unique_lazy" is the code as it was before fix 6e03b47 (F-C15-1): the uniqueness checker re-initialised inside the  *)
+(* array visit when found nil.  It stays as a refuted design: should the lazy write come back, its counterexample says *)
+(* what Gen_C15's process configuration unique_nil will show on the code.                                               *)
 (* the two settings edits are each harmless alone *)
-Safe == {"as_built", "settings_shared", "settings_toggled"}
+(* "router_hint": FindRoute remembers the last match in an atomic -- free of data races, so it is safe HERE; it is refuted *)
+(* by RouteOrder (MC_C15R_hinted.cfg): the answers depend on earlier traffic                                               *)
+Safe == {"as_built", "settings_shared", "settings_toggled", "router_hint"}
 ASSUME Variant \in Variants
 
 SS == INSTANCE SharedState WITH
@@ -22,7 +27,8 @@ SS == INSTANCE SharedState WITH
         TypeInfosLocked <- Variant # "typeinfos_unlocked",
         PatternCacheAtomic <- Variant # "pattern_cache_plain",
         UriCacheLocked <- Variant # "uricache_unlocked",
-        UniqueCheckerSet <- Variant # "unique_nil",
+        UniqueCheckerReadOnly <- Variant # "unique_lazy",
+        RouterStateless <- Variant # "router_hint",
         WithWriters <- Variant = "writers_included"
 
 Spec == SS!Spec
